@@ -90,24 +90,79 @@ class Ref:
                 n += 1
         return n
 
-    def args_legacy(self, name, padded=None):
-        """flattened argument list of the legacy Rust wasm ABI (docs/wasm_abi_quirks.md): leaf paths and 'pad'"""
+    def args_legacy(self, name, padded=None, prefix=""):
+        """flattened argument list of the legacy Rust wasm ABI (docs/wasm_abi_quirks.md) as slot descriptors:
+        ("leaf", path) | ("pad",) | ("chunk", optpath, k, align, size) | ("flag", optpath)"""
         if padded is None:
             sc = self.scalars(name)
             padded = sc is None or sc > 2
         size, align, fields = self.struct(name)
         out = []
         for i, (fname, t, off, s, a) in enumerate(fields):
+            path = prefix + fname
             if isinstance(t, StructT):
-                out += [(fname + "." + p) if p != "pad" else "pad" for p in self.args_legacy(t.name, padded)]
+                out += self.args_legacy(t.name, padded, path + ".")
             elif isinstance(t, Opt):
-                raise ValueError("options are not modelled in argument lists")
+                # "Unions are passed as size/align parameters, each of size align", then the is_ok bool and align-1 padding bytes
+                isz, ial = self.ty(t.inner)
+                for k in range(isz // ial):
+                    out.append(("chunk", path, k, ial, isz))
+                out.append(("flag", path + "?"))
+                out += [("pad",)] * (ial - 1)
             else:
-                out.append(fname)
+                out.append(("leaf", path))
             nxt = fields[i + 1][2] if i + 1 < len(fields) else size
             gap = nxt - (off + s)
             if padded and gap:
-                out += ["pad"] * (gap // a)
+                out += [("pad",)] * (gap // a)
+        return out
+
+    def option_payload_leaves(self, sname, optpath):
+        """[(path, kind, type, offset relative to the payload, width)] of the leaves inside the option field `optpath`"""
+        leaves = self.leaves(sname)
+        flag = [l for l in leaves if l[0] == optpath + "?"][0]
+        inner = [l for l in leaves if l[0] == optpath or l[0].startswith(optpath + ".")]
+        start = min(l[3] for l in inner) if inner else flag[3]
+        # the payload starts where the option field starts
+        for fl in leaves:
+            pass
+        return inner, flag
+
+    def eval_args(self, sname, descr, tokens, present, mod):
+        """concrete expected argument list for leaf tokens (numbers / 'n..' bigints / True / discriminants)"""
+        leaves = {l[0]: l for l in self.leaves(sname)}
+        out = []
+        for d in descr:
+            if d[0] == "pad":
+                out.append(0)
+            elif d[0] == "leaf":
+                out.append(tokens.get(d[1]))
+            elif d[0] == "flag":
+                out.append(1 if present else 0)
+            else:
+                _, optpath, k, align, size = d
+                if not present:
+                    out.append("n0" if align == 8 else 0)
+                    continue
+                inner = [l for l in leaves.values() if (l[0] == optpath or l[0].startswith(optpath + ".")) and l[1] != "flag"]
+                flag_off = leaves[optpath + "?"][3]
+                base = flag_off - size
+                img = bytearray(size)
+                for path, kind, t, off, w in inner:
+                    v = tokens.get(path)
+                    if kind == "enum":
+                        b = int(v) % (1 << 32)
+                        img[off - base:off - base + 4] = b.to_bytes(4, "little")
+                    elif t.name in ("f32", "f64"):
+                        import struct
+                        img[off - base:off - base + w] = struct.pack("<f" if w == 4 else "<d", float(v))
+                    elif v is True or v is False:
+                        img[off - base] = 1 if v else 0
+                    else:
+                        iv = int(v[1:]) if isinstance(v, str) else int(v)
+                        img[off - base:off - base + w] = (iv % (1 << (8 * w))).to_bytes(w, "little")
+                val = int.from_bytes(img[k * align:(k + 1) * align], "little")
+                out.append(("n%d" % val) if align == 8 else val)
         return out
 
 
@@ -250,15 +305,24 @@ def compare(mod, ref, data, abi="legacy"):
             if [size, align] not in res["recv"]:
                 out.append((sname, "receive buffer for a returned %s should be allocated with size %d align %d; emitted code allocates %r" % (sname, size, align, res["recv"])))
         # ---- argument list ----
-        if res.get("args") is not None and ref.scalars(sname) is not None and abi == "legacy":
-            exp = ref.args_legacy(sname)
-            toks = res["tokens"]
-            exp_vals = [0 if p == "pad" else toks.get(p) for p in exp]
-            got = list(res["args"])
-            # the receive buffer pointer is passed as an extra (first) argument; drop pointers the probe handed out
-            got_wo = [g for g in got if not (isinstance(g, int) and g >= 1024 and g % 256 == 0)]
-            if got_wo != exp_vals:
-                out.append((sname, "argument list for a by-value %s parameter (legacy wasm ABI) should be %r (= %r); emitted code passes %r" % (sname, exp, exp_vals, got_wo)))
+        if res.get("args") is not None and abi == "legacy":
+            descr = ref.args_legacy(sname)
+            runs = [("distinct non-zero leaf values", res["args"], res["tokens"], True)]
+            if res.get("args_zero"):
+                runs.append(("all-zero / false leaf values", res["args_zero"]["args"], res["args_zero"]["tokens"], True))
+            if res.get("args_absent"):
+                runs.append(("absent optional fields", res["args_absent"]["args"], res["args_absent"]["tokens"], False))
+            for what, got, toks, present in runs:
+                if got is None:
+                    out.append((sname, "argument list (%s): the export was not called" % what))
+                    continue
+                exp_vals = ref.eval_args(sname, descr, toks, present, mod)
+                # the receive buffer pointer is passed as an extra argument; drop pointers the probe handed out
+                got_wo = [g for g in got if not (isinstance(g, int) and not isinstance(g, bool) and g >= 1024 and g % 256 == 0)]
+                norm = lambda xs: [(1 if x is True else 0 if x is False else x) for x in xs]
+                if norm(got_wo) != norm(exp_vals):
+                    shape = ["pad" if d[0] == "pad" else d[1] + ("[%d]" % d[2] if d[0] == "chunk" else "") for d in descr]
+                    out.append((sname, "argument list for a by-value %s parameter (legacy wasm ABI, %s) should be %r (slots %r); emitted code passes %r" % (sname, what, exp_vals, shape, got_wo)))
     for e in data.get("errors", []):
         out.append(("probe", "emitted code threw while probing: %s" % e))
     return out
